@@ -83,11 +83,31 @@ while_symbolic = _unsup('while with symbolic condition (needs an invariant)')
 seq_concat = _unsup('sequence concatenation')
 seq_slice = _unsup('sequence slice')
 seq_sum = _unsup('sum over sequence')
-seq_enumerate = _unsup('enumerate over sequence')
 seq_reversed = _unsup('reversed sequence')
 seq_method = _unsup('sequence method')
 sym_range = _unsup('range with symbolic bound')
 rl_slice = _unsup('slice of run-length string')
+
+
+def seq_enumerate(I, pipe, start):
+    """enumerate(S): pairs (position, element); the position of an element is an unknown integer attached to the element (the same
+    element has the same position wherever the pair is evaluated), not smaller than `start`"""
+    from .interp import zint
+
+    def pair(v):
+        key = getattr(v, '_enum_pos', None) if hasattr(v, '__dict__') else None
+        if key is None:
+            seq_enumerate.n += 1
+            key = z3.Int(f'enum.pos.{seq_enumerate.n}')
+            try:
+                v._enum_pos = key
+            except Exception:
+                pass
+        return (key, v)
+    return pipe.with_stage('map', pair)
+
+
+seq_enumerate.n = 0
 
 
 def sorted_(I, args, kwargs):
@@ -345,10 +365,21 @@ def fold_loop(I, st, pipe, env):
     tnames = {n.id for n in ast.walk(st.target) if isinstance(n, ast.Name)}
     accs = [n for n in names if n not in tnames]
     init = {}
-    for n in accs:
+    loads = {m.id for b in st.body for m in ast.walk(b) if isinstance(m, ast.Name) and isinstance(m.ctx, ast.Load)}
+    unknown_after = []
+    for n in list(accs):
         found, v = env.lookup(n)
         if not found:
-            raise Unsupported(f'loop over a symbolic sequence creates the new local {n}')
+            # a temporary of the body (assigned before it is read in every iteration, or the read fails as an unbound local in the
+            # per-element evaluation): not an accumulator; after the loop its value is unknown
+            accs.remove(n)
+            unknown_after.append(n)
+            continue
+        if n not in loads and not isinstance(v, (str, SStr, bool, int, z3.BoolRef, z3.ArithRef)):
+            # written but never read by the body ('the last one seen'): does not influence the iterations; unknown after the loop
+            accs.remove(n)
+            unknown_after.append(n)
+            continue
         init[n] = v
     # accumulator symbols
     acc_syms = {}
@@ -363,25 +394,114 @@ def fold_loop(I, st, pipe, env):
             acc_syms[n] = z3.Int(f'acc.{pos}.i')
         else:
             raise Unsupported(f'accumulator {n} of type {type(v).__name__} in a loop over a symbolic sequence')
+    # local lists the body appends to (`L.append(..)` on a name bound to a list created in this function and not reachable from
+    # anything else in scope) become symbolic lists, so that the appends of all iterations can be spliced in
+    from .values import XList, SObj
+    for b in st.body:
+        for c in ast.walk(b):
+            cands = []
+            if isinstance(c, ast.Call) and isinstance(c.func, ast.Attribute) and c.func.attr == 'append' and isinstance(c.func.value, ast.Name):
+                cands.append(c.func.value.id)
+            elif isinstance(c, ast.Call):
+                # a list handed to a callee that may append to it (by its contract's model)
+                cands += [a.id for a in c.args if isinstance(a, ast.Name)] + [k.value.id for k in c.keywords if isinstance(k.value, ast.Name)]
+            for cname in cands:
+                found, cur = env.lookup(cname)
+                if found and isinstance(cur, list) and id(cur) not in I.prestate_ids:
+                    others = 0
+                    e = env
+                    while e is not None:
+                        for k, v in e.vars.items():
+                            if v is cur:
+                                others += 1
+                            elif isinstance(v, SObj) and any(x is cur for x in v.fields.values()):
+                                others += 2
+                        e = e.parent
+                    if others != 1:
+                        raise Unsupported('a list appended to inside a loop over a symbolic sequence is aliased')
+                    e = env
+                    while e is not None:
+                        if cname in e.vars:
+                            e.vars[cname] = XList(None, list(cur), False)
+                            break
+                        e = e.parent
+
+    def run_body(val):
+        """the body for one element with the accumulators unknown: (environment afterwards, recorded appends)"""
+        benv = Env(env.module, env.cls, env.func, env)
+        for n in accs:
+            benv.vars[n] = acc_syms[n]
+        I.assign(st.target, val, benv)
+        nw = len(I.writes)
+        saved_rec, I.recording = I.recording, []
+        I.pointwise += 1
+        I.merge_ifs += 1
+        try:
+            I.exec_block(st.body, benv)
+            recs = I.recording
+        finally:
+            I.pointwise -= 1
+            I.merge_ifs -= 1
+            I.recording = saved_rec
+        if any(not w[3] for w in I.writes[nw:]):
+            raise Unsupported('heap write inside a loop over a symbolic sequence')
+        return benv, recs
     pred, keys, val = pipe.eval_at('i')
-    benv = Env(env.module, env.cls, env.func, env)
-    for n in accs:
-        benv.vars[n] = acc_syms[n]
-    I.assign(st.target, val, benv)
-    nw = len(I.writes)
-    I.pointwise += 1
-    I.merge_ifs += 1
-    try:
-        I.exec_block(st.body, benv)
-    finally:
-        I.pointwise -= 1
-        I.merge_ifs -= 1
-    if len(I.writes) != nw:
-        raise Unsupported('heap write inside a loop over a symbolic sequence')
+    benv, recs = run_body(val)
     step = {n: benv.vars[n] for n in accs}
-    results = I.pipes.fold(pipe, accs, init, acc_syms, step, pred)
-    for n in accs:
-        env.vars[n] = results[n]
+    if accs:
+        results = I.pipes.fold(pipe, accs, init, acc_syms, step, pred)
+        for n in accs:
+            env.vars[n] = results[n]
+    from .interp import Havoc
+    for n in unknown_after:
+        env.vars[n] = Havoc(n)
+    # effect loop: every iteration appends one value to a list (possibly through a call): the list is extended by the sequence of
+    # those values; they must not depend on the accumulators
+    from .values import Spread
+    for k, (xl, v, guard) in enumerate(recs):
+        if _mentions(v, 'acc.') or _mentions(guard, 'acc.'):
+            raise Unsupported('value appended inside a loop depends on a loop accumulator')
+        I.note_write(xl, 'list.append')
+        out = pipe
+        if guard is not True:
+            out = out.with_stage('filter', (lambda e, k=k: run_body(e)[1][k][2]))
+        if not (v is val):
+            out = out.with_stage('map', (lambda e, k=k: run_body(e)[1][k][1]))
+        if out is pipe and pipe.stage is not None:
+            out = pipe.with_stage('filter', lambda e: True)
+        xl.items.append(Spread(out))
+
+
+def _mentions(v, prefix, depth=0):
+    """does the value contain a solver constant whose name starts with prefix?"""
+    from .values import SObj
+    if depth > 4:
+        return False
+    if isinstance(v, z3.ExprRef):
+        return any(str(c).startswith(prefix) for c in _consts(v))
+    if isinstance(v, SStr):
+        return any(_mentions(p[1], prefix, depth + 1) for p in v.parts if len(p) > 1) or any(_mentions(p[2], prefix, depth + 1) for p in v.parts if len(p) > 2)
+    if isinstance(v, SObj):
+        return any(_mentions(x, prefix, depth + 1) for x in v.fields.values())
+    if isinstance(v, (list, tuple)):
+        return any(_mentions(x, prefix, depth + 1) for x in v)
+    if hasattr(v, 'v') and isinstance(getattr(v, 'v'), z3.ExprRef):
+        return _mentions(v.v, prefix, depth + 1)
+    return False
+
+
+def _consts(e):
+    seen, out, todo = set(), [], [e]
+    while todo:
+        x = todo.pop()
+        if x.get_id() in seen:
+            continue
+        seen.add(x.get_id())
+        if z3.is_const(x) and x.decl().kind() == z3.Z3_OP_UNINTERPRETED:
+            out.append(x)
+        todo.extend(x.children())
+    return out
 
 
 # ----------------------------------------------------------------------------------------------------- indexing, membership
@@ -483,33 +603,47 @@ def xlist_index(I, xl, key):
 
 
 def xlist_equals(I, a, b):
+    """equality of two lists with symbolic parts: segment by segment (a symbolic sequence against a symbolic sequence, proved
+    equal by unification; runs of plain items against runs of the same length); other alignments are not decided"""
     from .values import XList
     from .interp import _and
-    def norm(v):
+    from .seq import SSeq
+
+    def segs(v):
         if isinstance(v, XList):
-            return v.base, list(v.items)
+            return v.segments()
         if isinstance(v, (list, tuple)):
-            return None, list(v)
-        from .seq import SSeq
+            return [('items', list(v))] if len(v) else []
         if isinstance(v, SSeq):
-            return v, []
-        return 'other', []
-    ba, ia = norm(a)
-    bb, ib = norm(b)
-    if ba == 'other' or bb == 'other':
+            return [('pipe', v)]
+        return None
+    sa, sb = segs(a), segs(b)
+    if sa is None or sb is None:
         return False
-    if len(ia) != len(ib):
-        # a base sequence could make up for the difference only if it is empty / non-empty accordingly: not modelled
-        if ba is None and bb is None:
+    pa = [s for s in sa if s[0] == 'pipe']
+    pb = [s for s in sb if s[0] == 'pipe']
+    if not pa and not pb:
+        xa = [x for _, seg in sa for x in seg]
+        xb = [x for _, seg in sb for x in seg]
+        if len(xa) != len(xb):
             return False
-        raise Unsupported('comparison of symbolic lists with different numbers of appended items')
-    if (ba is None) != (bb is None):
-        raise Unsupported('comparison of a symbolic list with a concrete list')
+        sa, sb = ([('items', xa)] if xa else []), ([('items', xb)] if xb else [])
+    if [k for k, _ in sa] != [k for k, _ in sb]:
+        if len(pa) == len(pb) and all(x[1] is y[1] for x, y in zip(pa, pb)):
+            return False        # the same symbolic parts with different numbers of plain items around them: the lengths differ
+        raise Unsupported('comparison of symbolic lists whose parts do not line up')
     acc = True
-    if ba is not None and ba is not bb:
-        acc = seq_equals(I, ba, bb)
-    for x, y in zip(ia, ib):
-        acc = _and(acc, I.truth(I.equals(x, y)) if not (hasattr(x, 'fields') and hasattr(y, 'fields')) else I.identical(x, y))
+    for (k, x), (_, y) in zip(sa, sb):
+        if k == 'pipe':
+            if x is not y:
+                acc = _and(acc, seq_equals(I, x, y))
+        else:
+            if len(x) != len(y):
+                if all(p[1] is q[1] for p, q in zip(pa, pb)):
+                    return False
+                raise Unsupported('comparison of symbolic lists with different numbers of plain items')
+            for u, v in zip(x, y):
+                acc = _and(acc, I.truth(I.equals(u, v)) if not (hasattr(u, 'fields') and hasattr(v, 'fields')) else I.identical(u, v))
     return acc
 
 
